@@ -14,6 +14,9 @@ pub enum Op {
     Allow(Vec<u8>),
     Forbid(Vec<u8>),
     Convert(f32),
+    /// n edit calls in a row (run-length form): kind 0 = allow([note]) / forbid([note]) alternating, the last call
+    /// being a forbid; kind 1 = forbid(all twelve notes, `note` last) n times
+    EditStorm(u8, u8, u64),
 }
 
 #[derive(Clone, Debug)]
@@ -34,6 +37,7 @@ impl History {
                 Op::Allow(v) => format!("allow {}", list(v)),
                 Op::Forbid(v) => format!("forbid {}", list(v)),
                 Op::Convert(x) => format!("convert {}  # {:e} V", f(*x), x),
+                Op::EditStorm(k, n, c) => format!("edit_storm {} {} {}", k, n, c),
             });
         }
         t.to_text()
@@ -46,6 +50,11 @@ impl History {
                 "allow" => ops.push(Op::Allow(it.map(|x| pu(x).map(|v| v as u8)).collect::<Result<_, _>>()?)),
                 "forbid" => ops.push(Op::Forbid(it.map(|x| pu(x).map(|v| v as u8)).collect::<Result<_, _>>()?)),
                 "convert" => ops.push(Op::Convert(pf(it.next().ok_or("arg")?)?)),
+                "edit_storm" => {
+                    let k = pu(it.next().ok_or("arg")?)? as u8;
+                    let n = pu(it.next().ok_or("arg")?)? as u8;
+                    ops.push(Op::EditStorm(k, n, pu(it.next().ok_or("arg")?)?))
+                }
                 x => return Err(format!("unknown quantizer op '{}'", x)),
             }
         }
@@ -195,6 +204,64 @@ pub fn execute(h: &History, want: &str, rep: &mut Report) -> Option<Violation> {
                     mask = if got != 0 { got } else { mask };
                 }
             }
+            Op::EditStorm(kind, note, count) => {
+                let nt = (*note).min(11);
+                let all: Vec<Note> = {
+                    let mut v: Vec<u8> = (0..12u8).filter(|x| *x != nt).collect();
+                    v.push(nt);
+                    notes(&v)
+                };
+                let one = [Note::from(nt)];
+                let (kind, count) = (*kind, *count);
+                call!(
+                    {
+                        if kind == 0 {
+                            // ... allow, forbid, allow, forbid: the last call is a forbid
+                            let mut allow_next = count % 2 == 0;
+                            for _ in 0..count {
+                                if allow_next {
+                                    q.allow(&one);
+                                } else {
+                                    q.forbid(&one);
+                                }
+                                allow_next = !allow_next;
+                            }
+                        } else {
+                            for _ in 0..count {
+                                q.forbid(&all);
+                            }
+                        }
+                    },
+                    i
+                );
+                n_eval += count;
+                c_edit[1] += count;
+                if count > 0 {
+                    if kind == 0 {
+                        // the shadow follows the last two calls (the sequence is periodic with period two)
+                        if count >= 2 {
+                            mask |= 1 << nt;
+                        }
+                        mask &= !(1 << nt);
+                        if mask == 0 {
+                            mask |= 1 << nt;
+                        }
+                    } else {
+                        mask = 1 << nt;
+                    }
+                }
+                let mut got: u16 = 0;
+                for n in 0..12u8 {
+                    if call!(q.is_allowed(Note::from(n)), i) {
+                        got |= 1 << n;
+                    }
+                }
+                if got != mask {
+                    fail!("C07", "scale-edit", format!("after {:?} is_allowed() reports the scale {:#05x}, expected {:#05x}", op, got, mask), i);
+                    mask = if got != 0 { got } else { mask };
+                }
+                rep.count("quant.edit_storm_calls", count);
+            }
             Op::Convert(v) => {
                 let c = call!(conv(&mut q, *v), i);
                 n_eval += 1;
@@ -295,7 +362,7 @@ pub fn execute(h: &History, want: &str, rep: &mut Report) -> Option<Violation> {
 }
 
 pub fn shrink(h: &History, want: &str, v: Violation) -> Violation {
-    if h.ops.len() > 5000 {
+    if h.ops.len() > 5000 || h.ops.iter().any(|o| matches!(o, Op::EditStorm(_, _, n) if *n > 1_000_000)) {
         return v;
     }
     let sig = v.signature.clone();
@@ -643,6 +710,46 @@ pub fn long_counts(ctx: &Ctx, want: &str) -> Report {
     })
 }
 
+/// a held note forbidden, then a storm of further edit calls whose total count lands on a power of two, then the
+/// same input again: 2^8 / 2^16 in the quick tier, 2^31 / 2^32 (a wrapped 32-bit edit counter) in the thorough tier
+pub fn edit_storms(ctx: &Ctx, want: &str) -> Report {
+    if ctx.tier == Tier::Small {
+        return Report::new();
+    }
+    let mut totals: Vec<u64> = vec![256, 65_536, 1 << 20];
+    if ctx.tier == Tier::Thorough {
+        totals.extend([1u64 << 31, 1 << 32]);
+    }
+    // (total calls incl. the forbid of the held note, delta, kind)
+    let mut jobs: Vec<(u64, i64, u8)> = Vec::new();
+    for t in &totals {
+        for d in [-1i64, 0, 1] {
+            jobs.push((*t, d, 0));
+        }
+        jobs.push((*t, 0, 1));
+        jobs.push((*t / 2, 0, 1));
+    }
+    par_shards(ctx, jobs.len(), |j| {
+        let mut rep = Report::new();
+        let (total, d, kind) = jobs[j];
+        let mut r = Rng::derive(ctx.seed, "quant.storm", j as u64);
+        let oct = r.below(10) as f64;
+        let pc = r.below(12) as u8;
+        let v = (oct + (pc as f64 + 0.4) / 12.0) as f32;
+        let other = (pc + 1 + r.below(11) as u8) % 12;
+        let ops = if kind == 0 {
+            // forbid(held) is one call, the storm supplies the rest; the storm ends with forbid(other)
+            vec![Op::Convert(v), Op::Forbid(vec![pc]), Op::EditStorm(0, other, (total as i64 - 1 + d) as u64), Op::Convert(v), Op::Allow(vec![pc, other]), Op::Convert(v)]
+        } else {
+            vec![Op::Convert(v), Op::EditStorm(1, other, total), Op::Convert(v), Op::Allow(vec![pc]), Op::Convert(v)]
+        };
+        let h = History { ops };
+        run_and_record(&h, want, &mut rep, j == 0);
+        rep.count("quant.edit_storm_histories", 1);
+        rep
+    })
+}
+
 pub fn random(ctx: &Ctx, want: &str) -> Report {
     let n_hist = ctx.budget(10, 40_000, 4_000_000) as usize;
     let shards = if ctx.tier == Tier::Small { 1 } else { 64 };
@@ -855,7 +962,7 @@ fn c08_edit_paths(ctx: &Ctx, masks: &[u16], grid: &[f32]) -> Report {
                             match op {
                                 Op::Allow(ns) => q.allow(&notes(ns)),
                                 Op::Forbid(ns) => q.forbid(&notes(ns)),
-                                Op::Convert(_) => {}
+                                _ => {}
                             }
                         }
                         q.convert(v).note_num
@@ -992,6 +1099,8 @@ pub fn run(ctx: &Ctx, prop: &str) -> Report {
     stage("quant.random_histories", random(ctx, prop), &mut rep, t);
     let t = std::time::Instant::now();
     stage("quant.long_counts", long_counts(ctx, prop), &mut rep, t);
+    let t = std::time::Instant::now();
+    stage("quant.edit_storms", edit_storms(ctx, prop), &mut rep, t);
     if ctx.tier != Tier::Small {
         for o in 0..=10 {
             rep.floor(&format!("quant.c07.cached_note_forbidden_same_input.octave{}", o), if o == 10 { 7 } else { 100 });
@@ -1022,6 +1131,7 @@ pub fn replay(t: &Text, want: &str, rep: &mut Report) -> Result<Option<Violation
                         mask |= 1 << (*n).min(11);
                     }
                 }
+                Op::EditStorm(_, _, _) => {}
                 Op::Convert(v) => {
                     // the scale is set up by replaying the recorded edits themselves
                     let mut q = Quantizer::new();
@@ -1029,7 +1139,7 @@ pub fn replay(t: &Text, want: &str, rep: &mut Report) -> Result<Option<Violation
                         match e {
                             Op::Allow(ns) => q.allow(&notes(ns)),
                             Op::Forbid(ns) => q.forbid(&notes(ns)),
-                            Op::Convert(_) => {}
+                            _ => {}
                         }
                     }
                     let note = q.convert(*v).note_num;
